@@ -1,6 +1,6 @@
 //! Checks that combine several engines under one property id.
 
-use crate::{e1, e4};
+use crate::{e1, e2, e4};
 use sim_core::driver::{Check, RunOut, Tier};
 use sim_core::json::J;
 use sim_core::prng::Rng;
@@ -17,7 +17,7 @@ impl Check for C05 {
         "C05"
     }
     fn rule(&self) -> String {
-        "run i: kt_start = 0 crossed with kt_finish in {None,0,1e-3,10}, kt_ratio in {None,0,0.1,1}, 1..100 inner loops, step sizes 0..1, convergence None/0/1e-6, on scripted landscapes (peak/plateau/rugged with cliffs and holes, ties and invalid proposals included); all drawn from splitmix(VERIF_SEED,'C05',i). Non-trivial: accepted and rejected moves both present, or an invalid/clamped proposal fired. Distinct: distinct history hashes.".into()
+        "run i: kt_start = 0 crossed with kt_finish in {None,0,1e-3,10}, kt_ratio in {None,0,0.1,1}, 1..100 inner loops, step sizes 0..1, convergence None/0/1e-6, on scripted landscapes (peak/plateau/rugged with cliffs and holes, ties and invalid proposals included); every 10th run is instead a chain of 1..3 zero-temperature stages (1..10 inner loops) on a real hard or LJ crystal (all groups/shapes) with special-position writes and restarts between stages, its parameters being the values behind generate_basis(); all drawn from splitmix(VERIF_SEED,'C05',i). Non-trivial: accepted and rejected moves both present, or an invalid/clamped proposal fired. Distinct: distinct history hashes.".into()
     }
     fn runs(&self, tier: Tier) -> u64 {
         match tier {
@@ -25,23 +25,34 @@ impl Check for C05 {
             Tier::Thorough => 2_000_000,
         }
     }
-    fn generate(&self, rng: &mut Rng, tier: Tier, _i: u64) -> J {
-        e1::checks::gen_c05_e1(rng, tier)
+    fn generate(&self, rng: &mut Rng, tier: Tier, i: u64) -> J {
+        // every 10th run is a chain of zero-temperature stages on a real crystal
+        if i % 10 == 9 {
+            e2::real56::gen(rng, tier, "C05")
+        } else {
+            e1::checks::gen_c05_e1(rng, tier)
+        }
     }
     fn execute(&self, j: &J) -> Result<RunOut, String> {
         match engine_of(j) {
             "e1-landscape" => e1::checks::exec_c05_e1(j),
+            "e2-crystal" => e2::real56::execute(j),
             other => Err(format!("unknown engine {}", other)),
         }
     }
     fn shrink(&self, j: &J) -> Vec<J> {
-        e1::checks::shrink_e1(j)
-            .into_iter()
-            .filter(|s| e1::checks::unscen(s).map(|(_, _, c)| c.kt_start == 0.0).unwrap_or(false))
-            .collect()
+        match engine_of(j) {
+            "e2-crystal" => e2::real56::shrink(j),
+            _ => e1::checks::shrink_e1(j)
+                .into_iter()
+                .filter(|s| e1::checks::unscen(s).map(|(_, _, c)| c.kt_start == 0.0).unwrap_or(false))
+                .collect(),
+        }
     }
     fn components_real(&self) -> Vec<&'static str> {
-        e1::checks::REAL.to_vec()
+        let mut v = e1::checks::REAL.to_vec();
+        v.extend_from_slice(e2::REAL);
+        v
     }
     fn components_stub(&self) -> Vec<&'static str> {
         e1::checks::STUB.to_vec()
@@ -53,7 +64,7 @@ impl Check for C05 {
         ]
     }
     fn expected_probes(&self) -> Vec<&'static str> {
-        vec!["probe.multi_loop_runs", "probe.kt_finish_set", "fault.F-tie", "fault.F-invalid"]
+        vec!["probe.multi_loop_runs", "probe.kt_finish_set", "fault.F-tie", "fault.F-invalid", "probe.real_zero_kt_stages"]
     }
 }
 
@@ -113,5 +124,56 @@ impl Check for C20 {
     }
     fn expected_probes(&self) -> Vec<&'static str> {
         vec!["fault.F-zero", "probe.inner_gt_steps", "probe.non_multiple", "probe.early_exit", "fault.F-args", "fault.F-disk/enospc-json", "fault.F-disk/enospc-svg", "fault.F-disk/enoent", "fault.F-disk/enotdir", "fault.F-disk/eisdir-json", "fault.F-disk/eisdir-svg", "probe.cli_exit_zero", "probe.cli_exit_nonzero"]
+    }
+}
+
+// ---------------------------------------------------------------------------------------------
+pub struct C06;
+
+impl Check for C06 {
+    fn id(&self) -> &'static str {
+        "C06"
+    }
+    fn rule(&self) -> String {
+        let base = e1::checks::C06.rule();
+        format!("{} Every 10th run is instead a chain of 1..3 optimisation stages on a real hard or LJ crystal (e2-crystal), tracked through the values behind generate_basis().", base)
+    }
+    fn runs(&self, tier: Tier) -> u64 {
+        e1::checks::C06.runs(tier)
+    }
+    fn generate(&self, rng: &mut Rng, tier: Tier, i: u64) -> J {
+        if i % 10 == 9 {
+            e2::real56::gen(rng, tier, "C06")
+        } else {
+            e1::checks::C06.generate(rng, tier, i)
+        }
+    }
+    fn execute(&self, j: &J) -> Result<RunOut, String> {
+        match engine_of(j) {
+            "e2-crystal" => e2::real56::execute(j),
+            _ => e1::checks::C06.execute(j),
+        }
+    }
+    fn shrink(&self, j: &J) -> Vec<J> {
+        match engine_of(j) {
+            "e2-crystal" => e2::real56::shrink(j),
+            _ => e1::checks::C06.shrink(j),
+        }
+    }
+    fn components_real(&self) -> Vec<&'static str> {
+        let mut v = e1::checks::REAL.to_vec();
+        v.extend_from_slice(e2::REAL);
+        v
+    }
+    fn components_stub(&self) -> Vec<&'static str> {
+        e1::checks::STUB.to_vec()
+    }
+    fn assumptions(&self) -> Vec<String> {
+        e1::checks::C06.assumptions()
+    }
+    fn expected_probes(&self) -> Vec<&'static str> {
+        let mut v = e1::checks::C06.expected_probes();
+        v.push("probe.real_stage_histories");
+        v
     }
 }
